@@ -1287,7 +1287,13 @@ def run_sem(chk, replay=None):
     """Part 3: the evaluator model Sem (about which the program-level theorems of props/C06.v speak) against the interpreter on
     generated programs that probe scoping: reads / assignments / redeclarations of names whose block has ended, shadowing of
     variables and constants inside 如果 / 每当 / 遍历 blocks, assignment to 恒为 names, parameters, 得到 results and definitions."""
-    semprop.run_property(chk, "C06", "c06s", SEM_PROFILES, 90, 1200, replay=replay, what=SEM_WHAT)
+    extra = []
+    if replay is None:
+        # the names a handler sees are those of the body it belongs to — its inputs, 此, the methods of its module — wherever
+        # the exception came from (a built-in method, a callee at any depth, a constructor)
+        from props import c09
+        extra = [(c09.handler_program(chk.rng), None, "handler-sees-its-body") for _ in range(25 if chk.tier == "quick" else 300)]
+    semprop.run_property(chk, "C06", "c06s", SEM_PROFILES, 90, 1200, replay=replay, extra_programs=extra, what=SEM_WHAT)
 
 
 def run(chk, replay=None):
